@@ -25,6 +25,22 @@ Theorem C16_noninterference :
 Proof. exact noninterference. Qed.
 Print Assumptions C16_noninterference.
 
+(* the same for whole histories on a caller-provided tree shared by several configured
+   merklizers (documents merklized into it with WithHasher, direct tree.Add calls, caller
+   steps on any of the merklizers): final state and all observations are independent of
+   the default-hasher stream *)
+Theorem C16_noninterference_shared_tree :
+  forall (T : tparams) (D D' : nat -> hasher) (gs : list gstep),
+  forallb (fun g => match g with
+                    | GMerklize (Some _) _ => true
+                    | GMerklize None _ => false
+                    | GAdd _ _ => true
+                    | GOn _ s => via_options s
+                    end) gs = true ->
+  grun T D 0 shared_init gs = grun T D' 0 shared_init gs.
+Proof. exact shared_noninterference_init. Qed.
+Print Assumptions C16_noninterference_shared_tree.
+
 (* MerklizeJSONLD itself (entries map, tree, stored hasher), also on a caller-provided tree *)
 Theorem C16_merklize_independent :
   forall (T : tparams) (F : floats) (Hc : hasher) (t0 : option tree) (ds : dataset)
